@@ -5,7 +5,7 @@ import compat  # noqa: F401
 from props.base import nontrivial, corpus_for  # noqa: F401
 
 ID = 'C13'
-LEAN_MODULES = ['PybtexModel.Props.C13']
+LEAN_MODULES = ['PybtexModel.Props.C13', 'PybtexModel.Props.C13x', 'PybtexModel.Props.WiringC13']
 THEOREMS = {
     'C13_lockstep': 'the two tables of the code stay in lock step (same lower keys, no duplicates, spellings lower to their key) from construction with ANY pair list through every operation history',
     'C13_refines': 'every operation history (insertions, overwrites, deletions, lookups, update, setdefault/pop, popitem, clear, keys/values/items/bool, d[k]+=n, lower()) on the two-table implementation model, from ANY constructor pair list, yields the results and final state of the reference ordered map (refinement, all histories, any idempotent key normaliser)',
@@ -23,12 +23,26 @@ THEOREMS = {
     'C13_set_len_contains_iter_agree': 'the set\'s length, containment, iteration and remembered spellings agree with each other',
     'C13_lower_idempotent': 'the model of str.lower() the driver runs with (whole strings: per-character table, U+0130 expansion, final-sigma rule) is idempotent: the one hypothesis of the theorems above',
     'C13_refines_lowerPy': 'the three refinement theorems instantiated with that model of str.lower()',
+    'C13_set_algebra': 'the binary set operators inherited from collections.abc.Set (s & o, s | o, s - o, o - s, s ^ o; o a list, another CaseInsensitiveSet satisfying the set invariant, or s itself) on a set satisfying the invariant, idempotent normaliser: membership of every key in the result is the and / or / and-not / xor of the memberships (lists read up to case), and every result satisfies the set invariant',
+    'C13_set_algebra_spec': 'same hypotheses: the lower-cased keys the model\'s result of & | - (reflected -) ^ iterates are exactly the members of the reference lists specAnd / specOr / specSub / specRsub / specXor the oracle reads',
+    'C13_set_inplace': 'same hypotheses: s &= o, s ^= o, s -= o, s |= o (incl. the `it is self` branch of ^= and -=: clear()) leave the set with the and / xor / and-not / or membership and the invariant',
+    'C13_set_inplace_spec': 'same hypotheses: after the in-place operators the set iterates exactly the members of the reference lists the oracle reads',
+    'C13_set_compare': 'for two sets satisfying the invariant, idempotent normaliser: <= / >= / == as collections.abc.Set computes them (length test, then scan) hold iff inclusion / equality of membership holds for every key; < and > are inclusion without the converse; isdisjoint(o) iff no key is in both',
+    'C13_set_compare_spec': 'same hypotheses: the model\'s <=, ==, <, isdisjoint equal the reference truth values (specLe / specEq / specLt / specDisjoint) the oracle reads',
+    'C13_eq_spec': 'Mapping.__eq__ on two mappings satisfying the lock-step invariant (also through the defaulting __getitem__, and against a plain dict with distinct keys) never raises and is true exactly when the reference maps have the same (spelling, value) pairs in any order',
+    'C13_eq_equivalence': '[about the SPEC only] that equality of reference maps is reflexive, symmetric and ignores order',
+    'C13_items_lower': 'items_lower() on a mapping satisfying the invariant yields the reference items with lower-cased keys, order and values kept, no KeyError',
+    'C13_views_contain': 'on a mapping satisfying the invariant: k in d.keys() is k in d; (k, v) in d.items() iff the reference look-up of k gives v; v in d.values() never raises and holds iff v is among the reference values (plain mappings; the defaulting variant: C13_views_contain_default)',
+    'C13_views_contain_default': 'the defaulting variant, mapping satisfying the invariant, any factory value: (k, v) in d.items() iff the DEFAULTING look-up of k gives v (so (absent key, factory value) passes although items() does not iterate it); v in d.values() iff v is among the reference values',
+    'C13_model_wiring': '[model wiring] the live classes define exactly the methods the models were written against (everything else is a collections.abc mix-in), the private tables have the modelled types, int() is 0 (table regenerated from /repo on every run, compared by decide)',
 }
 RULE = ('breadth-first over ALL states reachable from the empty container over keys {a,A,b,B,ab} x values {0,1} '
         '(state = items() of the implementation + whether the object came out of lower()), every operation applied once from every '
         'state, for each class; every constructor call with up to 4 pairs over {a,A,b} (positional pairs / dict / keyword arguments); '
         'plus seeded random histories with richer keys (incl. U+0130 and capital sigma in and out of final position); '
-        'non-trivial = history containing a mutation; distinct by case JSON')
+        'non-trivial = history containing a mutation; distinct by case JSON; '
+        'plus, function by function: every set operator / comparison on every operand pair from a small alphabet (see scope) and random ones after '
+        'histories, Mapping == / !=, items_lower(), containment in the three views, and the two private tables after random histories')
 TRUSTED = ['str.lower() of the running interpreter is modelled on whole strings (Model/UniCase.lean lowerPy): per-character table, '
            'multi-character forms (U+0130) and the final-sigma rule with the cased / case-ignorable classes recovered by probing the '
            'interpreter (Gen/UnicodeCase.lean, Gen/UnicodeLower.lean; re-checked against the interpreter on every run); the theorems use '
@@ -39,7 +53,11 @@ ASSUMPTIONS = ['keys are arbitrary strings; values are integers; the defaulting 
                'a set is never subtracted from itself (s -= s)',
                'the set iterates a Python set of lower-cased keys: its iteration and the member pop() picks are compared up to order '
                '("iteration follows first insertion" is stated and checked for the mappings only)',
-               'not covered: __eq__ / __ne__, copying, the binary set operators (| & - ^ and their in-place forms other than |= and -=)']
+               'the set operators and comparisons are driven with the other operand a list, another CaseInsensitiveSet or the set itself '
+               '(not a built-in set / frozenset, whose membership test is case sensitive; not a non-iterable: TypeError); == / != of the '
+               'mappings with a mapping of the three classes or a plain dict (a non-mapping gives NotImplemented -> False: not driven)',
+               'not covered: copying / pickling (copy.copy shares the two tables with the original), hashing (the classes are unhashable), '
+               'repr of the views, a default_factory other than int']
 
 KEYS = ['a', 'A', 'b', 'B', 'ab']
 VALS = [0, 1]
@@ -248,6 +266,12 @@ def impl(case):
 def _run(case):
     if case['op'] == 'cilower':
         return [s.lower() for s in case['ss']]
+    if case['op'] == 'cisetbin':
+        return _run_setbin(case)
+    if case['op'] == 'citables':
+        return _run_tables(case)
+    if case['op'] == 'cimapx':
+        return _run_mapx(case)
     cls = case['cls']
     try:
         c = _new(case)
@@ -266,8 +290,239 @@ def _run(case):
         return {'exception': compat.pybtex_error_kind(e), 'partial': out if 'out' in dir() else None}
 
 
+# ---- operators inherited from collections.abc (Model/CIMapX.lean): set algebra / comparisons, Mapping.__eq__, items_lower() ----
+SETBIN_NEW = ('and', 'or', 'sub', 'rsub', 'xor')
+SETBIN_INPLACE = ('iand', 'ixor', 'isub', 'ior')
+SETBIN_CMP = ('le', 'lt', 'ge', 'gt', 'eq', 'ne')
+SETBIN_ALL = SETBIN_NEW + SETBIN_INPLACE + SETBIN_CMP + ('isdisjoint',)
+
+
+def _run_setbin(case):
+    import operator
+    from pybtex import utils
+    try:
+        s = utils.CaseInsensitiveSet(case['a'])
+        for op in case['aops']:
+            s, _ = _apply_set(s, op)
+        b = case['b']
+        other = list(b['l']) if b['kind'] == 'list' else (utils.CaseInsensitiveSet(b['l']) if b['kind'] == 'ciset' else s)
+        f = case['f']
+        res = result = None
+        if f in SETBIN_NEW:
+            result = {'and': lambda: s & other, 'or': lambda: s | other, 'sub': lambda: s - other, 'rsub': lambda: other - s,
+                      'xor': lambda: s ^ other}[f]()
+            if type(result) is not utils.CaseInsensitiveSet or result is s:
+                return {'exception': 'INTERNAL:result of %s is %s' % (f, type(result).__name__)}
+        elif f in SETBIN_INPLACE:
+            r = {'iand': operator.iand, 'ixor': operator.ixor, 'isub': operator.isub, 'ior': operator.ior}[f](s, other)
+            if r is not s:
+                return {'exception': 'INTERNAL:in-place operator returned another object'}
+        elif f == 'isdisjoint':
+            res = s.isdisjoint(other)
+        else:
+            res = {'le': operator.le, 'lt': operator.lt, 'ge': operator.ge, 'gt': operator.gt, 'eq': operator.eq, 'ne': operator.ne}[f](s, other)
+            if not isinstance(res, bool):
+                return {'exception': 'INTERNAL:comparison returned %s' % type(res).__name__}
+        return {'res': res, 'result': _snap_set(result, None, case['probe']) if result is not None else None,
+                'self': _snap_set(s, None, case['probe'])}
+    except KeyError:
+        return 'KeyError'
+    except Exception as e:  # noqa
+        return {'exception': compat.pybtex_error_kind(e)}
+
+
+def _run_tables(case):
+    """the private tables after a history: `_dict` / `_keys` in their dict order (set: `_set` and `_keys`, sorted -- lower() rebuilds
+    `_keys` in the order of a Python set)"""
+    try:
+        c = _new(case)
+        for op in case['ops']:
+            c, _ = (_apply_set if case['cls'] == 'set' else _apply_dict)(c, op)
+        if case['cls'] == 'set':
+            return {'set': sorted(c._set), 'keys': sorted([k, v] for k, v in c._keys.items())}
+        return {'dict': [[k, v] for k, v in c._dict.items()], 'keys': [[k, v] for k, v in c._keys.items()]}
+    except Exception as e:  # noqa
+        return {'exception': compat.pybtex_error_kind(e)}
+
+
+def _tables_cases(rng, n):
+    cases = []
+    for i in range(n):
+        cls = ('dict', 'odict', 'ddict', 'set')[i % 4]
+        c = _random_case(rng, cls, rng.randint(3, 25))
+        c.pop('ctor', None)
+        c.pop('nkw', None)
+        ops = [op for op in c['ops'] if not (cls == 'set' and op['o'] == 'pop')]
+        cases.append({'op': 'citables', 'cls': cls, 'init': c['init'], 'ops': ops})
+    return cases
+
+
+def _new_map(cls, pairs):
+    from pybtex import utils
+    if cls == 'plain':
+        return dict((k, v) for k, v in pairs)
+    if cls == 'ddict':
+        d = utils.CaseInsensitiveDefaultDict(int)
+        for k, v in pairs:
+            d[k] = v
+        return d
+    return (utils.CaseInsensitiveDict if cls == 'dict' else utils.OrderedCaseInsensitiveDict)([(k, v) for k, v in pairs])
+
+
+VIEW_TESTS = ('keys_has', 'items_has', 'values_has')
+
+
+def _run_mapx(case):
+    try:
+        a = _new_map(case['cls'], case['a'])
+        for op in case['aops']:
+            a, _ = _apply_dict(a, op)
+        f = case['f']
+        if f == 'items_lower':
+            return [[k, v] for k, v in a.items_lower()]
+        if f in VIEW_TESTS:
+            return {'keys_has': lambda: case['k'] in a.keys(), 'items_has': lambda: (case['k'], case['v']) in a.items(),
+                    'values_has': lambda: case['v'] in a.values()}[f]()
+        b = _new_map(case['bcls'], case['b'])
+        if case.get('swap'):        # plain_dict == mapping: dict.__eq__ declines, Python calls the reflected Mapping.__eq__
+            a, b = b, a
+        r = (a == b) if f == 'eq' else (a != b)
+        return r if isinstance(r, bool) else {'exception': 'INTERNAL:comparison returned %s' % type(r).__name__}
+    except KeyError:
+        return 'KeyError'
+    except Exception as e:  # noqa
+        return {'exception': compat.pybtex_error_kind(e)}
+
+
+def _oracle_setbin(case, impl_out, reply):
+    """the set operators on the set of lower-cased keys: members of the result / truth value as the reference has them; the operand
+    `self` is left alone by the binary operators; len / iteration / bool / containment of every set seen agree"""
+    spec = reply['spec']
+    if not isinstance(impl_out, dict) or 'exception' in impl_out:
+        return ['behaves_like_reference: set operator %s raised %r' % (case['f'], impl_out)]
+    fails = []
+    if impl_out['res'] != spec['res']:
+        fails.append('behaves_like_reference: %s yields %r, the reference set %r' % (case['f'], impl_out['res'], spec['res']))
+    for key, skey in (('result', 'members'), ('self', 'self_members')):
+        snap = impl_out[key]
+        if (snap is None) != (spec[skey] is None):
+            fails.append('behaves_like_reference: %s of %s missing' % (key, case['f']))
+            continue
+        if snap is None:
+            continue
+        if sorted(snap['iter']) != sorted(set(spec[skey])):   # the reference gives the members as a list read as a set
+            fails.append('behaves_like_reference: %s after %s has members %r, the reference set %r' % (key, case['f'], snap['iter'], sorted(set(spec[skey]))))
+        want_has = [k.lower() in spec[skey] for k in case['probe']]
+        if snap['len'] != len(snap['iter']) or snap['bool'] != (snap['len'] != 0) or snap['has'] != want_has \
+                or sorted(x.lower() for x in snap['spellings']) != sorted(snap['iter']) or not snap['repr_ok']:
+            fails.append('len_contains_iter_agree: %s after %s: len=%d bool=%r iter=%r spellings=%r has=%r' % (
+                key, case['f'], snap['len'], snap['bool'], snap['iter'], snap['spellings'], snap['has']))
+    return fails
+
+
+def _oracle_mapx(case, impl_out, reply):
+    if case['f'] in VIEW_TESTS and case['cls'] != 'ddict':
+        # containment in keys() / items() / values() agrees with the map (for the counting variant the defaulting look-up makes
+        # `(absent key, 0) in d.items()` true: compared with the model only)
+        if impl_out != reply['spec']:
+            return ['len_contains_iter_agree: %s(%r, %r) is %r, the reference map says %r' % (case['f'], case.get('k'), case.get('v'), impl_out, reply['spec'])]
+        return []
+    if case['f'] != 'items_lower':
+        return []   # == / != are not clauses of the property text: model against implementation (correspondence) only
+    if not isinstance(impl_out, list):
+        return ['behaves_like_reference: items_lower() raised %r' % (impl_out,)]
+    if impl_out != reply['spec']:
+        return ['lower: items_lower() is %r, the reference map lower-cased has %r' % (impl_out, reply['spec'])]
+    return []
+
+
+def _setbin_cases(rng, nrand):
+    import itertools
+    probe = ['a', 'A', 'b', 'B', 'c', 'ab']
+    a_lists = [list(t) for n in range(0, 3) for t in itertools.product(['a', 'A', 'b'], repeat=n)] + [['A', 'b', 'ab'], ['c', 'B']]
+    b_lists = [list(t) for n in range(0, 3) for t in itertools.product(['a', 'A', 'b', 'c'], repeat=n)]
+    cases = []
+    for a in a_lists:
+        for f in SETBIN_ALL:
+            if f != 'rsub':
+                cases.append({'op': 'cisetbin', 'a': a, 'aops': [], 'b': {'kind': 'self'}, 'f': f, 'probe': probe})
+            for bl in b_lists:
+                if f not in SETBIN_CMP:
+                    cases.append({'op': 'cisetbin', 'a': a, 'aops': [], 'b': {'kind': 'list', 'l': bl}, 'f': f, 'probe': probe})
+                if f != 'rsub':
+                    cases.append({'op': 'cisetbin', 'a': a, 'aops': [], 'b': {'kind': 'ciset', 'l': bl}, 'f': f, 'probe': probe})
+    n_ex = len(cases)
+    for _ in range(nrand):
+        pool = UNI if rng.random() < 0.45 else RICH
+        aops = []
+        for _ in range(rng.randint(0, 6)):
+            o = rng.choice(['add', 'add', 'discard', 'remove', 'lower', 'ior', 'isub', 'clear' if rng.random() < 0.2 else 'add'])
+            aops.append({'o': o} if o in ('lower', 'clear') else ({'o': o, 'l': [rng.choice(pool) for _ in range(rng.randint(0, 3))]}
+                                                                   if o in ('ior', 'isub') else {'o': o, 'k': rng.choice(pool)}))
+        kind = rng.choice(['list', 'list', 'ciset', 'ciset', 'self'])
+        f = rng.choice([x for x in SETBIN_ALL if (kind == 'list' or x != 'rsub') and (kind != 'list' or x not in SETBIN_CMP)])
+        a = [rng.choice(pool) for _ in range(rng.randint(0, 5))]
+        bl = [rng.choice(pool if rng.random() < 0.8 else a or pool) for _ in range(rng.randint(0, 5))]
+        if kind != 'self' and rng.random() < 0.3:   # operands that agree up to case / order (equal, subset)
+            bl = [rng.choice([k, k.upper(), k.lower()]) for k in rng.sample(a, rng.randint(0, len(a)))] if rng.random() < 0.5 else list(reversed(a))
+        cases.append({'op': 'cisetbin', 'a': a, 'aops': aops, 'b': {'kind': kind, 'l': bl} if kind != 'self' else {'kind': 'self'},
+                      'f': f, 'probe': PROBE + rng.sample(pool, 4)})
+    return cases, n_ex
+
+
+def _mapx_cases(rng, nrand):
+    import itertools
+    pairs = [[k, v] for k in ('a', 'A', 'b') for v in (0, 1)]
+    lists = [list(t) for n in range(0, 3) for t in itertools.product(pairs, repeat=n)]
+    cases = []
+    for a in lists:
+        for cls in ('dict', 'odict', 'ddict'):
+            cases.append({'op': 'cimapx', 'cls': cls, 'a': a, 'aops': [], 'f': 'items_lower'})
+            if cls != 'odict':
+                for k in ('a', 'A', 'c'):
+                    cases.append({'op': 'cimapx', 'cls': cls, 'a': a, 'aops': [], 'f': 'keys_has', 'k': k, 'v': 0})
+                    for v in (0, 1):
+                        cases.append({'op': 'cimapx', 'cls': cls, 'a': a, 'aops': [], 'f': 'items_has', 'k': k, 'v': v})
+                for v in (0, 1):
+                    cases.append({'op': 'cimapx', 'cls': cls, 'a': a, 'aops': [], 'f': 'values_has', 'k': '', 'v': v})
+        for b in lists:
+            for cls, bcls, f in (('dict', 'dict', 'eq'),) + ((('ddict', 'odict', 'eq'), ('odict', 'dict', 'ne'), ('dict', 'plain', 'eq')) if len(a) < 2 else ()):
+                if bcls == 'plain' and len(dict(map(tuple, b))) != len(b):
+                    continue
+                cases.append({'op': 'cimapx', 'cls': cls, 'bcls': bcls, 'a': a, 'aops': [], 'b': b, 'f': f, 'swap': bcls == 'plain' and len(a) % 2 == 1})
+    n_ex = len(cases)
+    for _ in range(nrand):
+        pool = UNI if rng.random() < 0.4 else RICH
+        cls = rng.choice(['dict', 'odict', 'ddict'])
+        h = _random_case_(rng, cls, rng.randint(0, 8))
+        a = [[rng.choice(pool), rng.randint(-2, 2)] for _ in range(rng.randint(0, 5))]
+        f = rng.choice(['eq', 'eq', 'ne', 'items_lower', 'keys_has', 'items_has', 'values_has'])
+        case = {'op': 'cimapx', 'cls': cls, 'a': a, 'aops': h['ops'], 'f': f}
+        if f in VIEW_TESTS:
+            case.update(k=rng.choice(pool + [p[0] for p in a]), v=rng.randint(-2, 2))
+        elif f != 'items_lower':
+            bcls = rng.choice(['dict', 'odict', 'ddict', 'plain'])
+            r = rng.random()
+            if r < 0.35:     # the items `a` ends with, in another order / class: equal
+                out = _run({'op': 'cimapx', 'cls': cls, 'a': a, 'aops': h['ops'], 'f': 'items_lower'})
+                d = _new_map(cls, a)
+                for op in h['ops']:
+                    d, _ = _apply_dict(d, op)
+                b = [[k, v] for k, v in d.items()]
+                rng.shuffle(b)
+                if r < 0.12 and b:
+                    b[0] = [rng.choice([b[0][0].upper(), b[0][0].lower()]), b[0][1]]   # same up to case only
+            else:
+                b = [[rng.choice(pool), rng.randint(-2, 2)] for _ in range(rng.randint(0, 5))]
+            if bcls == 'plain':
+                b = [[k, v] for k, v in dict(map(tuple, b)).items()]
+            case.update(bcls=bcls, b=b, swap=(bcls == 'plain' and rng.random() < 0.5))
+        cases.append(case)
+    return cases, n_ex
+
+
 def to_request(case):
-    if case['op'] == 'cilower':
+    if case['op'] in ('cilower', 'cisetbin', 'cimapx', 'citables'):
         return case
     if case['cls'] == 'set':
         if not any(op['o'] == 'pop' for op in case['ops']):
@@ -307,8 +562,17 @@ def _sorted_set(steps):
 
 
 def model_out(case, reply):
-    if case['op'] == 'cilower':
+    if case['op'] in ('cilower', 'cimapx'):
         return reply['out']
+    if case['op'] == 'citables':
+        out = reply['out']
+        return {'set': sorted(out['set']), 'keys': sorted(out['keys'])} if case['cls'] == 'set' else out
+    if case['op'] == 'cisetbin':
+        out = reply['out']
+        for key in ('result', 'self'):
+            if out[key] is not None:
+                _sorted_set([out[key]])
+        return out
     return _sorted_set(reply['out']) if case['cls'] == 'set' else reply['out']
 
 
@@ -321,6 +585,12 @@ def oracle(case, impl_out, reply):
     iteration, items and repr agree with each other."""
     if case['op'] == 'cilower':
         return []   # the model of str.lower() against the interpreter: correspondence only, not a clause of the property
+    if case['op'] == 'cisetbin':
+        return _oracle_setbin(case, impl_out, reply)
+    if case['op'] == 'cimapx':
+        return _oracle_mapx(case, impl_out, reply)
+    if case['op'] == 'citables':
+        return []   # the private tables: model against implementation only
     fails = []
     spec = spec_out(case, reply)
     if not isinstance(impl_out, list):
@@ -347,9 +617,42 @@ def oracle(case, impl_out, reply):
     return fails
 
 
+def _pairs_ok(ps):
+    return isinstance(ps, list) and all(isinstance(p, list) and len(p) == 2 and isinstance(p[0], str) and isinstance(p[1], int)
+                                        and not isinstance(p[1], bool) for p in ps)
+
+
+def _ops_ok(ops):
+    return isinstance(ops, list) and all(isinstance(op, dict) and (op.get('o') not in KEYED + SET_KEYED or isinstance(op.get('k'), str))
+                                         and (op.get('o') not in VALUED or isinstance(op.get('v'), int))
+                                         and (op.get('o') != 'update' or _pairs_ok(op.get('ps')))
+                                         and (op.get('o') not in ('ior', 'isub') or isinstance(op.get('l'), list)) for op in ops)
+
+
 def valid_case(case):
+    if case.get('op') in ('cimapx', 'citables', 'cisetbin') and not _ops_ok(case.get('aops', case.get('ops', []))):
+        return False
+    if case.get('op') == 'cimapx' and not (_pairs_ok(case.get('a')) and _pairs_ok(case.get('b', []))
+                                           and isinstance(case.get('k', ''), str) and isinstance(case.get('v', 0), int)):
+        return False
+    if case.get('op') == 'citables' and case.get('cls') != 'set' and not _pairs_ok(case.get('init')):
+        return False
     if case.get('op') == 'cilower':
         return isinstance(case.get('ss'), list)
+    if case.get('op') == 'cisetbin':
+        b = case.get('b')
+        return (case.get('f') in SETBIN_ALL and isinstance(b, dict) and b.get('kind') in ('list', 'ciset', 'self')
+                and (b['kind'] != 'list' or case['f'] not in SETBIN_CMP) and (b['kind'] == 'list' or case['f'] != 'rsub')
+                and isinstance(b.get('l', []), list) and isinstance(case.get('a'), list)
+                and all(op.get('o') in SET_KEYED + ('lower', 'len', 'clear', 'ior', 'isub') for op in case.get('aops', [])))
+    if case.get('op') == 'citables':
+        if case.get('cls') == 'set':
+            return all(op.get('o') in SET_KEYED + ('lower', 'len', 'iter', 'bool', 'clear', 'ior', 'isub') for op in case['ops'])
+        return all(op.get('o') in KEYED + NULLARY + ('update',) for op in case['ops']) and 'ctor' not in case
+    if case.get('op') == 'cimapx':
+        return (case.get('f') in ('eq', 'ne', 'items_lower') + VIEW_TESTS and case.get('cls') in ('dict', 'odict', 'ddict')
+                and case.get('bcls', 'dict') in ('dict', 'odict', 'ddict', 'plain')
+                and all(op.get('o') in KEYED + NULLARY + ('update',) for op in case.get('aops', [])))
     if case.get('cls') == 'set':
         return all(op.get('o') in SET_KEYED + SET_NULLARY + ('ior', 'isub') for op in case['ops'])
     return all(op.get('o') in KEYED + NULLARY + ('update',) for op in case['ops']) and case.get('ctor', 'pairs') in ('pairs', 'dict', 'nopos')
@@ -358,12 +661,18 @@ def valid_case(case):
 def buckets(case, impl_out):
     if case['op'] == 'cilower':
         return ['lower']
+    if case['op'] == 'cisetbin':
+        return ['setop:%s:%s' % (case['f'], case['b']['kind'])]
+    if case['op'] == 'cimapx':
+        return ['mapx:%s:%s:%s' % (case['f'], case['cls'], case.get('bcls', '-'))]
+    if case['op'] == 'citables':
+        return ['tables:%s' % case['cls']]
     last = case['ops'][-1]['o'] if case['ops'] else 'init'
     return ['%s:%s' % (case['cls'], last)]
 
 
 def nontrivial(case, impl_out):  # noqa: F811
-    if case['op'] == 'cilower':
+    if case['op'] in ('cilower', 'cisetbin', 'cimapx', 'citables'):
         return True
     return any(op['o'] in MUTATING for op in case['ops']) or bool(case['init'])
 
@@ -531,6 +840,13 @@ def gen_cases(tier, rng, info):
         cls = ('dict', 'odict', 'ddict', 'set')[i % 4]
         cases.append(_random_case(rng, cls, rng.randint(5, 50)))
     cases += _lower_cases(rng, 40 if tier == 'quick' else 2000)
+    sb, n_sb = _setbin_cases(rng, 800 if tier == 'quick' else 12000)
+    mx, n_mx = _mapx_cases(rng, 800 if tier == 'quick' else 12000)
+    cases += sb + mx + _tables_cases(rng, 400 if tier == 'quick' else 8000)
+    info['scope'] += ('; set operators (& | - ^, reflected -, &= ^= -= |=, isdisjoint, <= < >= > == !=): %d cases = every operand pair with self from '
+                      '<= 2 of a/A/b (+2 longer) and the other operand a list / a CaseInsensitiveSet of <= 2 of a/A/b/c / the set itself; '
+                      'Mapping == / != (dict == dict: every pair of constructor lists of <= 2 pairs over a/A/b x 0/1; other class pairs: left list of <= 1 pair), items_lower() and containment in keys() / items() / values() '
+                      '(every such list x keys a/A/c x values 0/1): %d cases' % (n_sb, n_mx))
     return cases
 
 
@@ -539,14 +855,21 @@ LEVEL_TEXT = ('Machine-checked refinement proof (Lean 4): the two-table implemen
               'behaves like the reference ordered map / defaulting map / set under EVERY finite history of operations (induction over '
               'the history) from ANY constructor pair list, for EVERY idempotent key normaliser, with the stated corollaries (case-blind '
               'lookup, position kept on overwrite, first-insertion order, exact deletion, agreement of len/in/iter/keys/values/items/bool, '
-              'lower(), default without insertion, frame). The model is tied to the code by a correspondence check that is exhaustive '
+              'lower(), default without insertion, frame); the operators inherited from collections.abc -- set algebra (& | - ^, in-place forms, aliasing), '
+              'the comparisons with their length shortcuts, isdisjoint, Mapping.__eq__, items_lower(), containment in the views -- are characterised '
+              'by membership / by the reference map for ALL operands satisfying the invariant, and proved equal to the reference values the oracle reads. '
+              'The model is tied to the code by a correspondence check that is exhaustive '
               'over all reachable states x all operations for a 5-key alphabet (also for objects returned by lower()) and sampled beyond.')
 LEVEL_NOTE = ('Trusted: Lean kernel; axioms propext/Classical.choice/Quot.sound only; the hand-written model (Model/CIMapU.lean) '
               'corresponds to pybtex/utils.py only as far as the differential check explores; Python dict insertion '
               'order and the collections.abc mix-in methods are modelled, not verified; the order of a Python set is not modelled '
               '(the member pop() picks is taken from the implementation and checked to be a member); str.lower() is modelled on whole '
               'strings from tables regenerated from the interpreter, the proofs use only its idempotence (proved for the model). '
-              'repr() is checked on the implementation only (harness), not modelled; __eq__ and copying are not covered.  '
+              'repr() is checked on the implementation only (harness), not modelled; copying is not covered.  == / != of the mappings compare the '
+              'remembered spellings (two maps that differ in the case of a key only are unequal: C13_eq_spec_nonvacuous); the property text says nothing about '
+              'equality, so == / != and the private tables are compared model against implementation only (no oracle clause).  Which methods are mix-ins is '
+              'read off the live classes on every run (Gen/C13Methods.lean, C13_model_wiring); the mix-ins themselves (collections.abc of the running '
+              'interpreter) are modelled by hand and tied by the correspondence only.  '
               'C13_default_no_insert is a statement about the reference map alone (it unfolds OMap.stepD); the model is tied to that '
               'reference by C13_default_refines / C13_default_absent.  The set reference OSet is structurally the model\'s spelling table '
               '(abstraction = field projection, OSet.add proved equal to the table update), so C13_set_refines mainly says that the two '
